@@ -7,7 +7,7 @@ M2: the same scenarios in subprocesses under real multiprocessing / pathos pools
 worker counts and injected delays, plus multi-invocation histories in one process."""
 import os, sys, json, random, itertools, subprocess, shutil
 import numpy as np
-from .. import common, pools, scenarios
+from .. import common, pools, scenarios, endurance
 
 ID = "C12"
 LEVEL = "exploration"
@@ -26,7 +26,7 @@ ASSUMPTIONS = ["tasks are atomic (no tool makes two tasks write one file; the ta
                ".npz compared member-wise (zip entries carry wall-clock timestamps)",
                "the pestle integral is compared bit for bit: the tool sums in submission order, so its value is "
                "schedule- and worker-count-independent to the last bit"]
-REQUIRED_OBS = {"m1_runs": 300, "set:m1_schedules": 150, "set:tools_m1": 16, "m2_runs": 20,
+REQUIRED_OBS = {"endurance_calls": 100, "m1_runs": 300, "set:m1_schedules": 150, "set:tools_m1": 16, "m2_runs": 20,
                 "set:tools_m2": 16, "histories": 3, "serial_compared": 4}
 CHAIN = {"quick": 0, "thorough": 0}     # has its own multi-invocation histories
 TIMEOUT = {"quick": 900, "thorough": 3600}
@@ -54,7 +54,8 @@ def cases(tier, seed):
     ]
     for hi, h in enumerate(hists if tier == "thorough" else hists[:4]):
         cs.append({"kind": "hist", "history": h, "seed": seed * 100 + 7, "workers": 3 if hi % 2 else 2})
-    return cs
+    # M10: the same operation repeated in one process under a low open-file limit (vlib/endurance.py)
+    return list(cs) + [endurance.case("flatten2d", tier, seed), endurance.case("slice3d", tier, seed)]
 
 
 def setup():
@@ -222,6 +223,8 @@ def run_hist(case, work, rec):
 
 
 def run_case(case, work, rec):
+    if case.get("kind") == "endurance":
+        return endurance.run_case(case, work, rec)
     if case["kind"] == "m1":
         run_m1(case, work, rec)
     elif case["kind"] == "m2":
